@@ -1363,6 +1363,18 @@ class _State:
             self.res.unclassified.append((self.fn, node, f"external function {d} is not in the operation table"))
             return AV("unknown", al, flags={"uncertain"} if al else F0)
         a0 = pa[0] if pa else None
+        if isinstance(node, ast.Call):
+            kws = {k.arg: k.value for k in node.keywords if k.arg}
+            not_true = lambda v: not (isinstance(v, ast.Constant) and v.value is True)
+            not_false = lambda v: not (isinstance(v, ast.Constant) and v.value in (False, None))
+            if d in ("numpy.array", "numpy.nan_to_num") and "copy" in kws and not_true(kws["copy"]):
+                # copy=False / copy=None: the argument itself may come back (nan_to_num then also writes into it)
+                if d == "numpy.nan_to_num" and a0 is not None:
+                    self.event("inplace-call", a0, node, f"{d}(..., copy={ast.unparse(kws['copy'])})")
+                beh = "alias0"
+            if d in ("numpy.median", "numpy.nanmedian", "numpy.percentile", "numpy.nanpercentile", "numpy.quantile",
+                     "numpy.nanquantile") and "overwrite_input" in kws and not_false(kws["overwrite_input"]) and a0 is not None:
+                self.event("inplace-call", a0, node, f"{d}(..., overwrite_input={ast.unparse(kws['overwrite_input'])})")
         if beh == "fresh":
             return col()
         if beh == "scalar":
@@ -1528,6 +1540,12 @@ class _State:
                 self.event("inplace-call", recv, node, ".sort() (ndarray.sort is in place)")
                 return NONE
             beh = tables.ARRAY_METHODS.get(name)
+            if name == "astype" and isinstance(node, ast.Call):
+                # astype(dtype, copy=False) hands back the array itself when no conversion is needed
+                cp = [k.value for k in node.keywords if k.arg == "copy"]
+                if (cp and not (isinstance(cp[0], ast.Constant) and cp[0].value is True)) or \
+                        (len(node.args) >= 5 and not (isinstance(node.args[4], ast.Constant) and node.args[4].value is True)):
+                    return AV("col", recv.alias, flags=recv.flags)
             if beh == "fresh":
                 return col()
             if beh == "alias":
